@@ -7,7 +7,7 @@ The mirror exists so that trees TLC did not enumerate (the condition table of vf
 are evaluated and printed by exactly the same rules.
 
 Trees (JSON lists, as dumped by ConstExprMC):
-  ["lit", v]  ["un", op, t]  ["cast", ty, t]  ["bin", op, l, r]  ["cond", c, a, b]
+  ["lit", v]  ["un", op, t]  ["cast", ty, t] (ty: int bool char short)  ["bin", op, l, r]  ["cond", c, a, b]
 Leaves that exist only on the Python side (a spelling decision, the value is carried):
   ["sp", text, v]      a leaf already spelled (literal, character literal, reference): value v
 """
@@ -77,6 +77,8 @@ def cast_op(ty, a):
         return (OK, a)
     if ty == "bool":
         return (OK, int(a != 0))
+    if ty == "short":
+        return (OK, ((a + 32768) % 65536) - 32768)
     return (OK, ((a + 128) % 256) - 128)       # char: signed, 8 bit
 
 
@@ -188,7 +190,7 @@ def join(tokens, spaced=False):
     while i < n:
         tk = tokens[i]
         if want_operand:
-            if tk == "(" and i + 2 < n and tokens[i + 1] in ("int", "bool", "char") and tokens[i + 2] == ")":
+            if tk == "(" and i + 2 < n and tokens[i + 1] in ("int", "bool", "char", "short") and tokens[i + 2] == ")":
                 out.append("(" + tokens[i + 1] + ")")
                 i += 3
                 continue
